@@ -22,6 +22,8 @@ import (
 	"github.com/mr-tron/base58"
 	old_faithful_grpc "github.com/rpcpool/yellowstone-faithful/old-faithful-proto/old-faithful-grpc"
 	"github.com/rpcpool/yellowstone-faithful/zzverif/vh"
+	"google.golang.org/grpc/codes"
+	"google.golang.org/grpc/status"
 )
 
 type vc02Tx struct {
@@ -370,6 +372,37 @@ func TestVerif_C02(t *testing.T) {
 					} else if !bytes.Equal(gtx.Transaction.Transaction, wantRaw) || !bytes.Equal(gtx.Transaction.Meta, wantMeta) || gtx.Slot != want.Slot || gtx.BlockTime != b.Blocktime || gtx.Index == nil || int(*gtx.Index) != want.Pos {
 						rep.Fail("transaction-reply-differs-from-archive:grpc", fmt.Sprintf("%s %s: slot %d time %d index %v", tag, want.Sig, gtx.Slot, gtx.BlockTime, gtx.Index), replay)
 					}
+				}
+			}
+		}
+		// ---- unarchived signatures: answered not-found (never an internal error, never a transaction), whatever
+		// the number of loaded epochs and the search concurrency (all-not-found -> not found, C18 mapping)
+		{
+			rngA := vh.NewRng(seed + uint64(si)*7 + 3)
+			for k := 0; k < 6; k++ {
+				var sig solana.Signature
+				copy(sig[:], rngA.Bytes(64))
+				rep.Case(fmt.Sprintf("%s/getTransaction/absent/%d", tag, k), true)
+				rep.Count("getTransaction:absent")
+				body, _, panicked, pmsg := vfxRPC(h, fmt.Sprintf(`{"jsonrpc":"2.0","id":1,"method":"getTransaction","params":["%s",{"encoding":"base64"}]}`, sig))
+				if panicked {
+					rep.Fail("handler-panic", pmsg, map[string]interface{}{"sig": sig.String()})
+					continue
+				}
+				r, perr := vfxParseReply(body)
+				switch {
+				case perr != nil:
+					rep.Fail("unarchived-signature-bad-reply", body, map[string]interface{}{"sig": sig.String(), "epochs_loaded": set})
+				case r.Error != nil && r.Error.Code == -32603:
+					rep.Fail("unarchived-signature-internal-error", fmt.Sprintf("%s getTransaction(%s): %.200s (all epochs answered not-found: the reply must be not-found)", tag, sig, body),
+						map[string]interface{}{"sig": sig.String(), "epochs_loaded": set, "concurrency": conc})
+				case r.Error == nil && len(r.Result) > 4:
+					rep.Fail("unarchived-signature-answered", body, map[string]interface{}{"sig": sig.String(), "epochs_loaded": set})
+				}
+				if gtx, gerr := multi.GetTransaction(ctx, &old_faithful_grpc.TransactionRequest{Signature: sig[:]}); gerr == nil && gtx != nil && gtx.Transaction != nil {
+					rep.Fail("unarchived-signature-answered:grpc", sig.String(), map[string]interface{}{"sig": sig.String(), "epochs_loaded": set})
+				} else if gerr != nil && status.Code(gerr) != codes.NotFound {
+					rep.Fail("unarchived-signature-internal-error:grpc", fmt.Sprintf("%s %s: %v", tag, sig, gerr), map[string]interface{}{"sig": sig.String(), "epochs_loaded": set})
 				}
 			}
 		}
